@@ -584,7 +584,8 @@ def load_corpus():
 def run(tier, seed):
     ck = vlib.Check("C03", tier, seed, level="proof")
     ok_obl = ck.obligations(PROP, clean=False)
-    gvh, err = ck.build_gvh(pkg="./cmd/gvh-table", name="gvh-table_verif")
+    ov = os.environ.get("VERIF_C03_OVERLAY")      # mutation experiments only (go build -overlay)
+    gvh, err = ck.build_gvh(pkg="./cmd/gvh-table", name="gvh-table_verif" + ("_mut" if ov else ""), overlay=ov)
     if gvh is None:
         ck.violation("harness does not build against /repo", {"kind": "build", "stderr": err[-3000:]}, no_input=True)
         return ck.finish("n/a", TRUSTED, [])
@@ -595,7 +596,7 @@ def run(tier, seed):
     eng = Engine(gvh, oracle)
 
     corpus = load_corpus()
-    nrand = int(os.environ.get("VERIF_C03_N", 700 if tier == "quick" else 40000))
+    nrand = int(os.environ.get("VERIF_C03_N", 500 if tier == "quick" else 8000))
     hists = list(corpus)
     for i in range(nrand):
         hists.append(gen_history(ck.rng, alias=(i % 25 == 7)))
